@@ -7,12 +7,151 @@ Open Scope Z_scope.
 
 Definition field_ok (f : field) : Prop := (length (f_data f) <= 255)%nat.
 
+
+(* ---- byte layer helpers ---- *)
+Lemma take_n_app : forall a b, take_n (length a) (a ++ b) = Some (a, b).
+Proof.
+  induction a as [|x a IH]; intros b; simpl.
+  - reflexivity.
+  - rewrite IH. reflexivity.
+Qed.
+
 (* the field byte layer round-trips for every field list with data of at most 255 bytes
    (any codes, duplicates allowed at this layer) *)
 Theorem fields_roundtrip : forall fs rest,
     Forall field_ok fs ->
     parse_fields (length fs) (enc_fields fs ++ rest) = Some (fs, rest).
-Admitted.
+Proof.
+  induction fs as [|f fs IH]; intros rest Hok.
+  - reflexivity.
+  - inversion Hok as [|f' fs' Hf Hfs]; subst.
+    destruct f as [c d].
+    cbn [length enc_fields flat_map enc_field f_code f_data app parse_fields].
+    rewrite Nat2Z.id, <- app_assoc, take_n_app.
+    fold (enc_fields fs). rewrite (IH rest Hfs). reflexivity.
+Qed.
+
+Corollary fields_roundtrip_nil : forall fs,
+    Forall field_ok fs -> parse_fields (length fs) (enc_fields fs) = Some (fs, []).
+Proof.
+  intros fs Hok. pose proof (fields_roundtrip fs [] Hok) as H.
+  rewrite app_nil_r in H. exact H.
+Qed.
+
+(* ---- little-endian integers ---- *)
+Lemma le_bytes_length : forall n v, length (le_bytes n v) = n.
+Proof. induction n as [|n IH]; intros v; simpl; [reflexivity | now rewrite IH]. Qed.
+
+Lemma le_value_le_bytes : forall n v, le_value (le_bytes n v) = v mod 256 ^ Z.of_nat n.
+Proof.
+  induction n as [|n IH]; intros v.
+  - simpl. now rewrite Z.mod_1_r.
+  - cbn [le_bytes le_value]. rewrite IH, Nat2Z.inj_succ, Z.pow_succ_r by lia.
+    rewrite Z.rem_mul_r by lia. reflexivity.
+Qed.
+
+Lemma le_value_le_bytes_small : forall n v,
+    0 <= v < 256 ^ Z.of_nat n -> le_value (le_bytes n v) = v.
+Proof. intros n v Hv. rewrite le_value_le_bytes. now apply Z.mod_small. Qed.
+
+(* ---- find_field over list constructors (later fields win) ---- *)
+Lemma find_app : forall (A : Type) (p : A -> bool) l1 l2,
+    find p (l1 ++ l2) = match find p l1 with Some x => Some x | None => find p l2 end.
+Proof.
+  intros A p l1 l2. induction l1 as [|x l1 IH]; simpl; [reflexivity|].
+  destruct (p x); [reflexivity | exact IH].
+Qed.
+
+Lemma find_field_nil : forall c, find_field c [] = None.
+Proof. reflexivity. Qed.
+
+Lemma find_field_app : forall c l1 l2,
+    find_field c (l1 ++ l2) =
+    match find_field c l2 with Some d => Some d | None => find_field c l1 end.
+Proof.
+  intros c l1 l2. unfold find_field. rewrite rev_app_distr, find_app.
+  destruct (find _ (rev l2)); reflexivity.
+Qed.
+
+Lemma find_field_cons : forall c f l,
+    find_field c (f :: l) =
+    match find_field c l with
+    | Some d => Some d
+    | None => if f_code f =? c then Some (f_data f) else None
+    end.
+Proof.
+  intros c f l. change (f :: l) with ([f] ++ l). rewrite find_field_app.
+  unfold find_field at 2. cbn [rev app find]. destruct (f_code f =? c); reflexivity.
+Qed.
+
+Lemma find_field_opt : forall c b f,
+    find_field c (opt b f) =
+    if f_code f =? c then (if b then Some (f_data f) else None) else None.
+Proof.
+  intros c b f. destruct b; cbn [opt].
+  - rewrite find_field_cons, find_field_nil. reflexivity.
+  - rewrite find_field_nil. destruct (f_code f =? c); reflexivity.
+Qed.
+
+Lemma Forall_opt : forall (P : field -> Prop) b f, P f -> Forall P (opt b f).
+Proof. intros P b f H. destruct b; cbn [opt]; auto. Qed.
+
+Lemma opt_length_le : forall b f, (length (opt b f) <= 1)%nat.
+Proof. intros b f. destruct b; cbn; lia. Qed.
+
+Lemma too_long_false : forall s : bytes, (length s <= 255)%nat -> Nat.ltb 255 (length s) = false.
+Proof. intros s H. apply Nat.ltb_ge. exact H. Qed.
+
+Lemma empty_len : forall s : bytes, Nat.eqb (length s) 0 = true -> s = [].
+Proof. intros s H. apply Nat.eqb_eq in H. destruct s; [reflexivity | discriminate]. Qed.
+
+Lemma mkHV_eq : forall a1 a2 a3 a4 a5 a6 a7 a8 a9 a10 a11 a12 a13 a14 a15 a16 a17 a18 a19 b1 b2 b3 b4 b5 b6 b7 b8 b9 b10 b11 b12 b13 b14 b15 b16 b17 b18 b19,
+    a1 = b1 -> a2 = b2 -> a3 = b3 -> a4 = b4 -> a5 = b5 -> a6 = b6 -> a7 = b7 -> a8 = b8 -> a9 = b9 -> a10 = b10 -> a11 = b11 -> a12 = b12 -> a13 = b13 -> a14 = b14 -> a15 = b15 -> a16 = b16 -> a17 = b17 -> a18 = b18 -> a19 = b19 ->
+    mkHV a1 a2 a3 a4 a5 a6 a7 a8 a9 a10 a11 a12 a13 a14 a15 a16 a17 a18 a19 = mkHV b1 b2 b3 b4 b5 b6 b7 b8 b9 b10 b11 b12 b13 b14 b15 b16 b17 b18 b19.
+Proof. intros; subst; reflexivity. Qed.
+
+Lemma mkFV_eq : forall a1 a2 a3 a4 a5 a6 a7 b1 b2 b3 b4 b5 b6 b7,
+    a1 = b1 -> a2 = b2 -> a3 = b3 -> a4 = b4 -> a5 = b5 -> a6 = b6 -> a7 = b7 ->
+    mkFV a1 a2 a3 a4 a5 a6 a7 = mkFV b1 b2 b3 b4 b5 b6 b7.
+Proof. intros; subst; reflexivity. Qed.
+
+Ltac unfold_codes :=
+  unfold u8, u16, u32, u64,
+    C_NUMFRAMES, C_MAXTEMP, C_MINTEMP, C_TIMESTAMP, C_XRES, C_YRES, C_COMPRESSION, C_SERIAL,
+    C_DEVNAME, C_FIRMWARE, C_MODEL, C_BRAND, C_FPS, C_DEVID, C_PREVIEW, C_MOTION, C_LAT, C_LONG,
+    C_LOCTS, C_ALT, C_ACC, C_BACKGROUND, C_TIMEON, C_BITWIDTH, C_FRAMESIZE, C_LASTFFC, C_TEMPC,
+    C_LASTFFCTEMP.
+
+(* compute one accessor over a field list made of [::], [++] and [opt] with concrete codes *)
+Ltac rd_compute :=
+  unfold rd_u8, rd_u16, rd_u32, rd_u64, rd_str, get_n;
+  rewrite ?find_field_app, ?find_field_opt, ?find_field_cons, ?find_field_nil;
+  unfold_codes;
+  cbn [f_code f_data Z.eqb Pos.eqb];
+  repeat first
+    [ progress (rewrite ?le_bytes_length; cbn [length Nat.eqb])
+    | match goal with
+      | |- context [if ?b then _ else _] =>
+        lazymatch b with
+        | Nat.eqb (length _) _ => fail
+        | _ => let E := fresh "E" in destruct b eqn:E
+        end
+      end ];
+  cbn [le_value negb];
+  try reflexivity;
+  try match goal with
+      | E : negb (Nat.eqb (length ?s) 0) = false |- _ =>
+        apply negb_false_iff in E; apply empty_len in E; rewrite E; reflexivity
+      end;
+  repeat match goal with E : (_ <? _) = true |- _ => apply Z.ltb_lt in E end;
+  rewrite ?le_value_le_bytes_small by lia; rewrite ?Z.mod_small by lia;
+  try reflexivity; try lia.
+
+Ltac field_ok_tac :=
+  repeat first [ apply Forall_nil | apply Forall_cons
+               | apply Forall_app; split | apply Forall_opt ];
+  unfold field_ok; unfold_codes; cbn [f_data]; rewrite ?le_bytes_length; cbn [length]; try lia.
+
 
 (* header: for all inputs within the property's guards the writer succeeds, produces at most
    255 well-formed fields, they survive the byte layer, and the reader-side accessors return
@@ -25,13 +164,55 @@ Theorem header_view_correct : forall h,
                (length fs <= 255)%nat /\ Forall field_ok fs /\
                parse_fields (length fs) (enc_fields fs) = Some (fs, []) /\
                view fs = expected_view h.
-Admitted.
+Proof.
+  intros h Hok.
+  destruct Hok as (Hts & Hx & Hy & Hser & Hfps & Hdevid & Hprev & Hdn & Hfw & Hmo & Hbr & Hmot &
+                   Hlat & Hlong & Halt & Hacc & Hlocts).
+  unfold header_fields. cbv beta zeta.
+  rewrite (too_long_false _ Hdn), (too_long_false _ Hfw), (too_long_false _ Hmo),
+          (too_long_false _ Hbr), (too_long_false _ Hmot).
+  cbn [orb].
+  eexists. split; [reflexivity|].
+  assert (Hfok : Forall field_ok
+    ([u16 C_NUMFRAMES 0; u16 C_MAXTEMP 0; u16 C_MINTEMP 0;
+     u64 C_TIMESTAMP (hi_timestamp_us h);
+     u32 C_XRES (hi_resx h); u32 C_YRES (hi_resy h);
+     u8 C_COMPRESSION 1;
+     u32 C_SERIAL (hi_serial h)] ++
+    opt (negb (Nat.eqb (length (hi_devname h)) 0)) (mkField C_DEVNAME (hi_devname h)) ++
+    opt (negb (Nat.eqb (length (hi_firmware h)) 0)) (mkField C_FIRMWARE (hi_firmware h)) ++
+    opt (negb (Nat.eqb (length (hi_model h)) 0)) (mkField C_MODEL (hi_model h)) ++
+    opt (negb (Nat.eqb (length (hi_brand h)) 0)) (mkField C_BRAND (hi_brand h)) ++
+    opt (0 <? hi_fps h) (u8 C_FPS (hi_fps h)) ++
+    opt (0 <? hi_devid h) (u32 C_DEVID (hi_devid h)) ++
+    [u8 C_PREVIEW (hi_preview h)] ++
+    opt (negb (Nat.eqb (length (hi_motion h)) 0)) (mkField C_MOTION (hi_motion h)) ++
+    opt (negb (hi_lat_zero h)) (u32 C_LAT (hi_lat_bits h)) ++
+    opt (negb (hi_long_zero h)) (u32 C_LONG (hi_long_bits h)) ++
+    opt (negb (hi_locts_zero h)) (u64 C_LOCTS (hi_locts_us h)) ++
+    opt (hi_alt_nonneg h) (u32 C_ALT (hi_alt_bits h)) ++
+    opt (negb (hi_acc_zero h)) (u32 C_ACC (hi_acc_bits h)) ++
+    opt (hi_background h) (u8 C_BACKGROUND 1))) by field_ok_tac.
+  split; [|split; [exact Hfok|split; [exact (fields_roundtrip_nil _ Hfok)|]]].
+  - rewrite !app_length.
+    repeat match goal with
+           | |- context [length (opt ?b ?f)] =>
+             generalize (opt_length_le b f); generalize (length (opt b f)); intros ? ?
+           end.
+    cbn [length]. lia.
+  - clear Hfok. change (2 ^ 64) with (256 ^ Z.of_nat 8) in *.
+    change (2 ^ 32) with (256 ^ Z.of_nat 4) in *.
+    unfold view, expected_view. apply mkHV_eq; rd_compute.
+Qed.
 
 (* outside the guard: a motion configuration text (or any string) longer than 255 bytes makes
    WriteHeader - hence every StartRecording - fail *)
 Theorem header_string_too_long : forall h,
     (255 < length (hi_motion h))%nat -> header_fields h = None.
-Admitted.
+Proof.
+  intros h H. unfold header_fields. cbv beta zeta.
+  apply Nat.ltb_lt in H. rewrite H, orb_true_r. reflexivity.
+Qed.
 
 (* frames: time-on and last-FFC time in milliseconds (modulo 2^32), temperatures as float32 bit
    patterns, bit width and compressed size round-trip through the field layer *)
@@ -47,4 +228,15 @@ Theorem frame_fields_view : forall f,
            (if fi_background f then 0 else fi_tempc_bits f)
            (if fi_background f then 0 else fi_lastffctempc_bits f)
            (fi_bitwidth f) (fi_compressed_len f).
-Admitted.
+Proof.
+  intros f Htc Hlt Hbw Hlen fs.
+  assert (Hfok : Forall field_ok fs).
+  { unfold fs, frame_fields. destruct (fi_background f); field_ok_tac. }
+  split; [exact (fields_roundtrip_nil _ Hfok)|].
+  pose proof (Z.mod_pos_bound (fi_timeon_ns f / 1000000) (2 ^ 32) eq_refl) as Hton.
+  pose proof (Z.mod_pos_bound (fi_lastffc_ns f / 1000000) (2 ^ 32) eq_refl) as Hffc.
+  fold (millis (fi_timeon_ns f)) in Hton. fold (millis (fi_lastffc_ns f)) in Hffc.
+  change (2 ^ 32) with (256 ^ Z.of_nat 4) in *.
+  unfold fs, frame_fields, frame_view_of.
+  destruct (fi_background f); apply mkFV_eq; rd_compute.
+Qed.
